@@ -11,6 +11,12 @@ def opEncSel (o h e p : String) : String :=
   | some o, some h, some e, some p => toString (chooseEncoding o h e p 1).1
   | _, _, _, _ => "bad-op"
 
+/-- `encsel2 <override> <http1> <explicit1> <parent1> <http2> <explicit2>` → encoding of the nested imported sheet -/
+def opEncSel2 (o h1 e1 p1 h2 e2 : String) : String :=
+  match optNat o, optNat h1, optNat e1, optNat p1, optNat h2, optNat e2 with
+  | some o, some h1, some e1, some p1, some h2, some e2 => toString (chooseNested o h1 e1 p1 h2 e2 1).1
+  | _, _, _, _, _, _ => "bad-op"
+
 def fetchOf : String → Option Fetch
   | "none" => some .none | "notPair" => some .notPair | "noContent" => some .noContent | "text" => some .text
   | "bytesOk" => some .bytesOk | "bytesUndecodable" => some .bytesUndecodable | "unknownEncoding" => some .unknownEncoding
